@@ -369,22 +369,44 @@ func init() {
 				if i := strings.IndexAny(path, ".["); i >= 0 {
 					root = path[:i]
 				}
-				fn := u.Parent()
-				rf := rootFunc(fn)
-				switch {
-				case strings.HasPrefix(root, "global:"):
+				if strings.HasPrefix(root, "global:") {
 					return "stored in package-level " + path
-				case root == "param0" && len(fn.Params) > 0 && engineType(fn.Params[0].Type()):
-					return "stored in engine field " + strings.TrimPrefix(path, "param0")
-				case strings.HasPrefix(root, "cell:") || strings.HasPrefix(root, "free:"):
-					// a closure writing through a captured engine pointer (Once.Do(func(){ v.x = … }))
-					if fa, ok := st.Addr.(*ssa.FieldAddr); ok {
-						for _, o := range p.origins(fa.X, OriginOpts{}) {
-							if prm, ok := o.(*ssa.Parameter); ok && engineType(prm.Type()) && prm.Parent() == rf {
-								return "stored in engine field " + fieldName(fa.X.Type(), fa.Field) + " from a closure"
+				}
+				// a store through a pointer to an engine object that was not allocated here — reached through a
+				// parameter, a field of another long-lived object (t.vue.x = …), or a captured variable of a
+				// closure (Once.Do(func(){ v.x = … }))
+				base := st.Addr
+				fld := ""
+				for depth := 0; depth < 6; depth++ {
+					switch a := base.(type) {
+					case *ssa.FieldAddr:
+						if fld == "" {
+							fld = fieldName(a.X.Type(), a.Field)
+						}
+						if engineType(a.X.Type()) {
+							fresh := true
+							for _, o := range p.origins(a.X, OriginOpts{}) {
+								if _, isAlloc := o.(*ssa.Alloc); !isAlloc {
+									fresh = false
+								}
 							}
+							if !fresh {
+								return "stored in engine field " + fieldName(a.X.Type(), a.Field)
+							}
+							return ""
+						}
+						base = a.X
+						continue
+					case *ssa.IndexAddr:
+						base = a.X
+						continue
+					case *ssa.UnOp:
+						if a.Op == token.MUL {
+							base = a.X
+							continue
 						}
 					}
+					break
 				}
 				return ""
 			}
